@@ -836,8 +836,41 @@ func emitConsts(repo, out string) error {
 		}
 		return true
 	})
+	// getShard: FNV-1a 32 bit of eventType.String(), masked with numShards-1
+	fe, err := parser.ParseFile(fset, filepath.Join(repo, "event_bus.go"), nil, 0)
+	if err != nil {
+		return err
+	}
+	shardMask, shardFnv, shardKeyString := false, false, false
+	for _, d := range fe.Decls {
+		if fd, ok := d.(*ast.FuncDecl); ok && fd.Name.Name == "getShard" && fd.Body != nil {
+			ast.Inspect(fd.Body, func(n ast.Node) bool {
+				switch y := n.(type) {
+				case *ast.BinaryExpr:
+					if y.Op == token.AND {
+						if p, ok := y.Y.(*ast.ParenExpr); ok {
+							if b, ok := p.X.(*ast.BinaryExpr); ok && b.Op == token.SUB && exprString(b.X) == "numShards" {
+								if bl, ok := b.Y.(*ast.BasicLit); ok && bl.Value == "1" {
+									shardMask = true
+								}
+							}
+						}
+					}
+				case *ast.CallExpr:
+					switch exprString(y.Fun) {
+					case "fnv.New32a":
+						shardFnv = true
+					case "eventType.String":
+						shardKeyString = true
+					}
+				}
+				return true
+			})
+		}
+	}
 	var sb strings.Builder
 	sb.WriteString("/- GENERATED by /verif/go/extract; do not edit. Constants of the Go source that the models hard-code. -/\nnamespace Ebu.Generated.Consts\n\n")
+	sb.WriteString(fmt.Sprintf("/-- getShard: index = fnv.New32a(eventType.String()) & (numShards - 1) -/\ndef shardIndexIsMask : Bool := %v\ndef shardHashIsFnv1a32 : Bool := %v\ndef shardKeyIsTypeString : Bool := %v\n\n", shardMask, shardFnv, shardKeyString))
 	sb.WriteString(fmt.Sprintf("/-- `fmt.Sprintf(%s, …)` in MemoryStore.Append -/\ndef memOffsetFormat : String := %s\ndef memOffsetWidth : Nat := %d\ndef memOffsetZeroPadded : Bool := %v\n\n", strconv.Quote(memFmt), strconv.Quote(memFmt), width, padded))
 	sb.WriteString(fmt.Sprintf("/-- default `batchSize` of Replay when the configured one is <= 0 -/\ndef replayDefaultBatch : Int := %d\n\n", defBatch))
 	sb.WriteString(fmt.Sprintf("def offsetOldest : String := %s\ndef offsetNewest : String := %s\n\n", strconv.Quote(oldest), strconv.Quote(newest)))
